@@ -183,7 +183,9 @@ func vSeg(i int) string {
 }
 
 func vVars() map[string]interface{} {
-	switch verifChoice("vars", 6) {
+	switch verifChoice("vars", 7) {
+	case 5:
+		return map[string]interface{}{"f": nil, "zz": nil}
 	case 0:
 		return map[string]interface{}{"f": nil}
 	case 1:
